@@ -38,6 +38,13 @@ CHECKS = {
             "dispatch, overflow) on a real EventLoop are replayed by TLC against the property-level rules (Pass A) and the code-order model (Pass B). Concurrent "
             "producers against the running loop (race detector on) are checked for loss, duplication and real-time order.",
             "Handlers do not register/unregister from inside a dispatch in the drivers; a Go race report in core/eventloop counts as a violation.", "DESIGN.md section 6, C14"),
+    "C18": ("model_checking",
+            "TLA+ Twins module (well-formedness, odometer, reference verdict) model-checked by TLC; TLC line-check of the real generator's drained output and of real checkCommits verdicts",
+            "TLC checks the odometer and the verdict loop against the reference verdict on all small synthetic logs. Every generator setting (n<=5, twins<=2, partitions<=3, "
+            "views<=4) is drained from the real generator (completely when the announced number is within the tier's limit), twice for determinism, shuffled with equal "
+            "seeds, and round-tripped through JSON; TLC checks count, non-repetition, well-formedness, permutation (Pass A) and the odometer order (Pass B). Real "
+            "checkCommits verdicts on all commit-log pairs/triples and seeded larger sets (with twin pairs) are compared with the reference verdict.",
+            "Settings whose announced number exceeds the limit are checked on a prefix.", "DESIGN.md section 6, C18"),
     "C19": ("model_checking",
             "TLA+ IDSet module (byte-level Bitfield model vs ideal set) exhausted by TLC; TLC trace validation of operation sequences run on the real Bitfield and real Sign/Combine",
             "TLC exhausts the byte-level model against the ideal set for all insertion orders over boundary ids; operation sequences (exhaustive to a depth over "
